@@ -27,6 +27,7 @@ RULE = (
     "with DH / ECDH_P256 / ECDH_P384}, clock class {real, +-2 ticks of an L2/L1/L0 boundary, random 1970..2200}, layout {in-envelope, trailing}, "
     "API {sync, async}); every one of the 16 configurations x both layouts x both APIs at least once per shard. distinct = digest of the case tuple; "
     "non-trivial = plaintext length != 10 or SID not the suite's or clock not real-now"
+    " Also: sessions on ONE cache (offline root keys, several SIDs and root keys; and a cache fed only by a DC, sync/async alternating, small and large L1/L2 indices), forced leading-zero DH secrets."
 )
 ASSUMPTIONS = [
     "the reference DC (in-memory front end, scripted security context) stands in for a domain controller; real NTLM members are run in C17",
